@@ -414,6 +414,16 @@ class ToolOps(StepOps):
                     vals[id(call)] = result
                     env["@callvals"] = vals
                     return
+            if self._resolved(f) == "sorted" and self._resolved_kind(f) in ("builtin", "stdlib") and len(call.args) == 1:
+                # the builtin ``sorted(L, key=.., reverse=..)`` on a finite sequence of the model: a sorted copy
+                el = self._elements(ev.eval(call.args[0], env), env)
+                if el is not None:
+                    copy_ = self._new(env, el)
+                    done = self._sort(copy_, call, env, ev)
+                    vals = dict(env.get("@callvals", {}))
+                    vals[id(call)] = copy_ if done else UNKNOWN
+                    env["@callvals"] = vals
+                    return
             if isinstance(f, ast.Attribute) and f.attr == "sort" and not call.args:
                 base = ev.eval(f.value, env)
                 if self._is_list(base):
@@ -812,6 +822,31 @@ def _minmax_cells(stdlib_fn):
                                fns={"K": lambda a: ("key", a[0])}, ranks=rk)
 
 
+def _minmax_repeat_cells(stdlib_fn):
+    """the same *object* more than once in the input (the current best shows up again): the key is called for every
+    item pulled, also for one that is the best so far"""
+    for shape in ((0, 1, 0), (1, 0, 1), (0, 0), (0, 1, 0, 1)):
+        for ranks2 in _it.product((0, 1), repeat=2):
+            objs = [("item", 0, 0), ("item", 0, 1)]
+            items = [objs[k] for k in shape]
+            rk = {objs[k]: ranks2[k] for k in (0, 1)}
+            rk.update({("key", objs[k]): ranks2[k] for k in (0, 1)})
+
+            def oracle(shape=shape, ranks2=ranks2, objs=objs):
+                calls: List[Any] = _Calls()
+                syms = [_Sym(objs[k], rank=ranks2[k]) for k in (0, 1)]
+                src = _Src([syms[k] for k in shape])
+
+                def key(x):
+                    calls.append(("K", (x.sym,)))
+                    return _Sym(("key", x.sym), rank=x.rank)
+                obs = _observe_call(lambda: stdlib_fn(src, key=key), [src], calls)
+                return obs[:4] + (_unsym(obs[4]),)
+            yield Cell(f"objects {''.join('ab'[k] for k in shape)} (the same object more than once) ranked {ranks2}, key",
+                       [("IT", 0)], {"key": ("FN", "K")}, {0: len(shape)}, oracle, items={0: items},
+                       fns={"K": lambda a: ("key", a[0])}, ranks=rk)
+
+
 def _collect_cells(stdlib_fn):
     for n in range(0, 4):
         def oracle(n=n):
@@ -883,8 +918,8 @@ AGGREGATES: List[Tuple[str, Callable[[], Any]]] = [
     ("builtins.sum", _sum_cells),
     ("builtins.all", lambda: _truth_cells(all)),
     ("builtins.any", lambda: _truth_cells(any)),
-    ("builtins.min", lambda: _minmax_cells(min)),
-    ("builtins.max", lambda: _minmax_cells(max)),
+    ("builtins.min", lambda: _it.chain(_minmax_cells(min), _minmax_repeat_cells(min))),
+    ("builtins.max", lambda: _it.chain(_minmax_cells(max), _minmax_repeat_cells(max))),
     ("builtins.list", lambda: _collect_cells(list)),
     ("builtins.tuple", lambda: _collect_cells(tuple)),
     ("builtins.set", lambda: _collect_cells(set)),
@@ -1160,8 +1195,10 @@ def fault_tables(ctx, rid: str, items_only: bool = False) -> None:
                   "that finds it exhausted included) or of the user's callable, with exactly that use raising; the items delivered "
                   "before, the uses made (none after the failure) and the exception that ends the operation equal those of the stdlib "
                   "function executed with the same use failing")
-    _tables(ctx, rid, TOOLS, "asyncgen", "fault_base_cells", USES, faults=True)
-    _tables(ctx, rid, OBJECT_TOOLS, "asyncgen", "fault_base_cells", USES, make_ops=_object_factory, faults=True)
+    # (every end-of-source check is a use that can fail: a tool that asks its exhausted source less often than the counterpart
+    # never raises the failure of the request it leaves out - the number of such requests is part of the base comparison)
+    _tables(ctx, rid, TOOLS, "asyncgen", "fault_base_cells", USES + ("end-of-source detections",), faults=True)
+    _tables(ctx, rid, OBJECT_TOOLS, "asyncgen", "fault_base_cells", USES + ("end-of-source detections",), make_ops=_object_factory, faults=True)
     _tables(ctx, rid, AGGREGATES, "coroutine", "fault_base_cells", USES, faults=True)
     from . import objmodel
 
